@@ -66,6 +66,8 @@ KINDS = {
     "zip2-member": "/arc2.zip/nope/x",
     "zip2-listing": "/arc2.zip",
     "script": "/script.sh",
+    "script-big": "/bigscript.sh",
+    "gz-big": "/bigz.txt.gz",
     "tal": "/t.html.tal",
     "gz": "/z.txt.gz",
     "notfound": "/no-such-thing",
@@ -127,6 +129,10 @@ def make_spec(bigsize=9000, nmsg=3, ndocs=4):
               "<p tal:repeat=\"i python:range(5)\">row <i tal:content=\"i\">0</i></p></body></html>\n"},
         {"p": "z.txt.gz", "k": "file",
          "d": {"b64": base64.b64encode(gzip.compress(b"compressed text\n" * 10, mtime=0)).decode()}},
+        {"p": "bigscript.sh", "k": "file", "x": True,
+         "d": "#!/bin/sh\ni=0\nwhile [ $i -lt 400 ]; do echo \"line $i of a long script output 0123456789012345678901234567890123456789\"; i=$((i+1)); done\n"},
+        {"p": "bigz.txt.gz", "k": "file",
+         "d": {"b64": base64.b64encode(gzip.compress(b"a long compressed document line 0123456789\n" * 600, mtime=0)).decode()}},
         {"p": "gm", "k": "dir"},
         {"p": "gm/gophermap", "k": "file",
          "d": "Welcome\n0A file\tfile.txt\n1Docs\t/docs\nhSite\tURL:http://example.org/\n"},
